@@ -429,6 +429,12 @@ pub struct LeaderState<T: TypeConfig> {
     /// Queue of learners that have caught up and are pending promotion to voter.
     pub pending_promotions: VecDeque<PendingPromotion>,
 
+    /// Set once this leader has asked the Raft loop to make it a follower (BecomeFollower is queued,
+    /// not yet processed). Until then the node is still in the Leader role - possibly with a term it
+    /// adopted from the request that deposed it and was never elected for - so it must neither send
+    /// AppendEntries nor propose client writes any more.
+    pub(crate) stepping_down: std::sync::atomic::AtomicBool,
+
     // -- Cluster Topology Cache --
     /// Cached cluster metadata (updated on membership changes)
     /// Avoids repeated async calls in hot paths
@@ -737,6 +743,12 @@ impl<T: TypeConfig> RaftRoleState for LeaderState<T> {
         _raft_tx: &mpsc::Sender<InboundEvent>,
         ctx: &RaftContext<T>,
     ) -> Result<()> {
+        if self.stepping_down.load(Ordering::Acquire) {
+            // BecomeFollower is queued behind this tick (ticks are polled first): no heartbeat in
+            // a term this node may only have adopted; just let the loop reach the internal event.
+            self.timer.reset_replication();
+            return Ok(());
+        }
         let now = Instant::now();
         // Keep syncing leader_id (hot-path: ~5ns atomic store)
         self.shared_state().set_current_leader(self.node_id());
@@ -1083,6 +1095,11 @@ impl<T: TypeConfig> RaftRoleState for LeaderState<T> {
     ) -> Result<()> {
         // Drain-based: unconditionally flush all buffered commands
         // No timeout/size checks - drain from channel already collected the batch
+
+        if self.stepping_down.load(Ordering::Acquire) {
+            // deposed: the buffered commands are answered by drain_read_buffer() when the role changes
+            return Ok(());
+        }
 
         let has_writes = !self.propose_buffer.is_empty();
         let has_reads = !self.linearizable_read_buffer.is_empty();
@@ -3128,6 +3145,7 @@ impl<T: TypeConfig> LeaderState<T> {
             ?new_leader_id,
             "Leader is going to step down as Follower..."
         );
+        self.stepping_down.store(true, Ordering::Release);
         internal_event_tx
             .send(InternalEvent::BecomeFollower(new_leader_id))
             .map_err(|e| {
@@ -3378,6 +3396,7 @@ impl<T: TypeConfig> LeaderState<T> {
             snapshot_in_progress: AtomicBool::new(false),
             stale_check_deadline: None,
             pending_promotions: VecDeque::new(),
+            stepping_down: std::sync::atomic::AtomicBool::new(false),
             linearizable_read_buffer: Box::new(BatchBuffer::new(batch_size).with_length_gauge(
                 node_id,
                 "linearizable",
@@ -4163,6 +4182,7 @@ impl<T: TypeConfig> From<&CandidateState<T>> for LeaderState<T> {
             snapshot_in_progress: AtomicBool::new(false),
             stale_check_deadline: None,
             pending_promotions: VecDeque::new(),
+            stepping_down: std::sync::atomic::AtomicBool::new(false),
             cluster_metadata: ClusterMetadata {
                 single_voter: false,
                 total_voters: 0,
